@@ -22,8 +22,19 @@ def plan(ex, tier, first):
 
 
 def run(tier, seed, ev):
-    return tcommon.generic_run(PROP, tier, seed, ev, plan, [
+    import mirrun
+    import sprop
+    rc1 = tcommon.generic_run(PROP, tier, seed, ev, plan, [
         "what is decided: the discipline under which the protocol steps are atomic (unlink only under the intents lock, "
         "intent registered before the blob is visible and kept until the index apply, filter against all intents)",
-        "NOT decided here: the bounded interleaving model of section 4.2 of DESIGN.md (schedules as symbolic variables) — see "
-        "known limitations; D4 (one intent slot per key) is therefore outside this check"])
+        "interleavings: the real operations run as threads over one shared symbolic store; the scheduler forks over every enabled "
+        "thread at every lock acquisition and blob-directory call; at every scheduling point with the state write lock free, every "
+        "key in the index must map to an existing blob"])
+    with mirrun.mir_executor(PROP + "s") as (ex, scr, mir_s):
+        plans = [(("put", "put"), 1, 2), (("put", "remove"), 1, 2)]
+        if tier == "thorough":
+            plans += [(("put", "remove"), 2, 2), (("put", "put"), 2, 2), (("remove", "remove"), 2, 2), (("put", "delete_orphan"), 2, 2)]
+        rc2 = sprop.run_s(PROP, tier, seed, ev, ex, plans)
+        ev.bounds["interleavings"] = "2 threads; key universe 1 (quick) / 2 (thorough), hash universe 2; arbitrary initial index and blob set (referenced + orphans); quiet log stretch (no rollover), N=8"
+        ev.functions.append("threads: Transaction::commit, CasInner::remove, OrphanStats::delete_orphan — full MIR, interleaved")
+    return tcommon.best(rc1, rc2)
